@@ -544,7 +544,7 @@ impl World {
         if self.task_trace.len() < 20_000 {
             self.task_trace.push(name.clone());
         }
-        if self.hold_types.iter().any(|h| name.starts_with(h.as_str())) {
+        if self.hold_types.iter().any(|h| name.contains(h.as_str())) {
             let rt = self.rt.clone();
             let _ = guarded(|| rt.tasks().reschedule(&key, krill::server::mq::in_hours(6)))?;
             return Ok(Some(format!("held:{name}")));
